@@ -577,6 +577,9 @@ def oracle_broadcast(case, R):
     for name, tol in (("ksingle", 1e-13), ("kdouble", TOL_ELEM)):
         fn = getattr(stats, name)
         out = fn(P, C, Nn)
+        # the caller's arrays are inputs only (they are reused for the next call below)
+        R.check(all(np.array_equal(np.asarray(a_), np.asarray(b_)) for a_, b_ in ((P, p), (C, c), (Nn, n))),
+                f"{name}_modifies_its_arguments", f"{tag}: after the call p={P!r} c={C!r} n={Nn!r}")
         if not R.check(np.shape(out) == shape, f"{name}_broadcast_shape",
                        f"{tag}: {np.shape(out)} want {shape}"):
             continue
@@ -605,7 +608,10 @@ def oracle_broadcast(case, R):
                 n_equals_r_region(*_elementwise((kw["p"], kw["c"], kw["r"]), i, shp))
                 for i in np.ndindex(*shp)):
             R.label("n_task:answer_is_r")
-        out = stats.order_stats(which, **{k: _arr(v, arr) for k, v in kw.items()})
+        akw = {k: _arr(v, arr) for k, v in kw.items()}
+        out = stats.order_stats(which, **akw)
+        R.check(all(np.array_equal(np.asarray(akw[k]), np.asarray(kw[k])) for k in kw),
+                "order_stats_modifies_its_arguments", f"which={which} {kw}: after the call {akw}")
         if not R.check(np.shape(out) == shp, f"os_{which}_broadcast_shape",
                        f"{kw}: {np.shape(out)} want {shp}"):
             continue
